@@ -1,5 +1,6 @@
 import SkimModel.Model.Field
 import SkimModel.Generated.FieldFns
+import SkimModel.Lemmas.FnTactics
 /-!
 `FieldRange::translate_neg` and the four arms of `FieldRange::to_index_pair` as TRANSLATED from src/field.rs
 (`Generated/FieldFns.lean`, rewritten from the source on every run) are, for all inputs, what the C12 model computes.
@@ -10,30 +11,30 @@ open SkimModel.Generated
 theorem translate_neg_is_model (idx : Int) (length : Nat) : FieldFns.translateNeg idx length = translateNeg idx length := by
   unfold FieldFns.translateNeg translateNeg
   try simp only [Int.ofNat_eq_natCast]
-  all_goals ((repeat' split) <;> (first | rfl | omega))
+  all_goals fn_eq
 
 theorem to_index_pair_single_is_model (num : Int) (length : Nat) :
     FieldFns.single num length = toIndexPair (.single num) length := by
   unfold FieldFns.single toIndexPair
   try simp only [translate_neg_is_model, Bool.or_eq_true, beq_iff_eq, decide_eq_true_eq]
-  all_goals ((repeat' split) <;> (first | rfl | omega | (simp_all; try omega)))
+  all_goals fn_eq
 
 theorem to_index_pair_left_inf_is_model (right : Int) (length : Nat) :
     FieldFns.leftInf right length = toIndexPair (.leftInf right) length := by
   unfold FieldFns.leftInf toIndexPair
   try simp only [translate_neg_is_model, Bool.or_eq_true, beq_iff_eq, decide_eq_true_eq]
-  all_goals ((repeat' split) <;> (first | rfl | omega | (simp_all; try omega)))
+  all_goals fn_eq
 
 theorem to_index_pair_right_inf_is_model (left : Int) (length : Nat) :
     FieldFns.rightInf left length = toIndexPair (.rightInf left) length := by
   unfold FieldFns.rightInf toIndexPair
   try simp only [translate_neg_is_model, Bool.or_eq_true, beq_iff_eq, decide_eq_true_eq]
-  all_goals ((repeat' split) <;> (first | rfl | omega | (simp_all; try omega)))
+  all_goals fn_eq
 
 theorem to_index_pair_both_is_model (left right : Int) (length : Nat) :
     FieldFns.both left right length = toIndexPair (.both left right) length := by
   unfold FieldFns.both toIndexPair
   try simp only [translate_neg_is_model, Bool.or_eq_true, beq_iff_eq, decide_eq_true_eq]
-  all_goals ((repeat' split) <;> (first | rfl | omega | (simp_all; try omega)))
+  all_goals fn_eq
 
 end SkimModel.Field
